@@ -39,8 +39,9 @@ InsideOK ==
     ELSE \A i \in 1..Len(pos) : pos[i][1] >= 0 /\ pos[i][2] <= N /\ pos[i][1] < pos[i][2]
 \* inconsistent arguments must raise ValueError
 MustRaise == ~CountsOK \/ ~InsideOK
-\* placement is judged for strictly increasing changepoints in 1..n-1 / anomalies inside the data
-Judged == IF fn = "changing" THEN IsStrictlyIncreasing(pos) /\ \A i \in 1..Len(pos) : pos[i] >= 1 /\ pos[i] <= N - 1
+\* placement is judged for non-decreasing changepoints in 0..n-1 (a changepoint at 0 or a repeated
+\* one requests an EMPTY segment, whose parameters are simply not used) / anomalies inside the data
+Judged == IF fn = "changing" THEN \A i \in 1..Len(pos) : pos[i] >= 0 /\ pos[i] <= N - 1
           ELSE InsideOK
 \* composition of affine maps: the later item applies on top of what is there
 Compose(j, old) == [c \in 1..P |-> <<MeanOf(j, c) + SdOf(j) * old[c][1], SdOf(j) * old[c][2]>>]
@@ -56,7 +57,8 @@ ApplyAll(i, j) ==
 RowMapDef == [i \in 0..(N - 1) |-> ApplyAll(i, NItems)]
 
 (* --------------------------- implementation layer ---------------------- *)
-ChangingPositions == {q \in UNION {[1..m -> Posns] : m \in 0..MaxK} : IsStrictlyIncreasing(q)}
+IsNonDecreasing(q) == \A i \in 1..(Len(q) - 1) : q[i] <= q[i + 1]
+ChangingPositions == {q \in UNION {[1..m -> Posns] : m \in 0..MaxK} : IsNonDecreasing(q)}
 AnomalyPositions  == UNION {[1..m -> Posns \X Posns] : m \in 1..MaxK}
 
 Init ==
